@@ -216,6 +216,23 @@ def defs(fn):
     return fn._defs
 
 
+class _Opt:
+    def __init__(self, calls=True, bin=False):
+        self.calls = calls
+        self.bin = bin
+
+    def __bool__(self):
+        return self.calls
+
+
+def value_slice(fn, op):
+    """Sources and visited locals of the backward slice that also follows arithmetic operands
+    (used to ask whether a size expression and a comparison share a value)."""
+    seen = set()
+    srcs = origins(fn, op, seen=seen, through_calls=_Opt(True, True))
+    return srcs, {l for (l, _p) in seen}
+
+
 def origins(fn, op, depth=0, seen=None, through_calls=True):
     """Backward, field-sensitive slice of an operand / place to its sources.  Returns source dicts:
       {'k':'const', 'v':.., 'named':.., 'str':..}
@@ -312,6 +329,9 @@ def _origins_place(fn, l, fes, depth, seen, tc):
                             out += _origins_op(fn, o, [], depth, seen, tc)
             elif r == "bin":
                 out.append({"k": "bin", "op": rv["op"], "pt": pt, "st": st})
+                if getattr(tc, "bin", False):
+                    out += _origins_op(fn, rv["a"], [], depth, seen, tc)
+                    out += _origins_op(fn, rv["b"], [], depth, seen, tc)
             elif r == "un":
                 out.append({"k": "un", "op": rv["op"], "pt": pt, "st": st})
                 out += _origins_op(fn, rv["a"], [], depth, seen, tc)
